@@ -50,7 +50,15 @@ def gen(rng, n):
             c['interval'] = rng.choice([1, 1, 2, 3, 7])
             per = c['interval'] * (3600 if freq == 2 else 60)
         tr = transitions(ZONES[zone]) if not gmt else []
-        if tr and rng.random() < 0.6:
+        aimed = None
+        if tr and freq == 1 and rng.random() < 0.3:
+            # HH:MM inside / at the edge of the hour skipped or repeated by a change of the zone offset
+            aimed = rng.choice(tr)
+            w = datetime.datetime.fromtimestamp(aimed, ZoneInfo(ZONES[zone])) + datetime.timedelta(minutes=rng.choice([-61, -60, -59, -31, -30, -29, -1, 0, 1, 29, 30, 59, 60]))
+            c['hh'], c['mm'] = w.hour, w.minute
+        if aimed is not None:
+            start = aimed - rng.randrange(0, 60 * 3600)
+        elif tr and rng.random() < 0.6:
             start = rng.choice(tr) - rng.randrange(0, 36 * 3600)
         else:
             start = 1672531200 + rng.randrange(0, 365 * 86400)
@@ -83,6 +91,23 @@ def gen(rng, n):
     return cases
 
 
+def dst_shape(case):
+    """None, or for a daily schedule in a local zone whose span [start, last timestamp] holds a change of the zone
+    offset: 'crossing' | 'ambiguous' (HH:MM occurs twice on a day of the span) | 'skipped' (HH:MM does not exist
+    on a day of the span)"""
+    c = parse(case)
+    if c['freq'] != 1 or c['gmt'] or not c['ops']: return None
+    lo = c['ops'][0][3]; hi = max([o[2] for o in c['ops'][1:] if o[0] == 'W'] or [lo])
+    if not any(lo // NS < t <= hi // NS for t in transitions(ZONES[c['zone']])): return None
+    tz = zone_of(c); shape = 'crossing'
+    for d, cands in daily_days(c, lo, hi):
+        if len(cands) == 2: shape = 'ambiguous'
+        else:
+            back = datetime.datetime.fromtimestamp(cands[0] // NS, tz)
+            if (back.hour, back.minute) != (c['hh'], c['mm']): return 'skipped'
+    return shape
+
+
 def nontrivial(case, impl_line):
     """at least one time rotation (two sink files hold statements) and one pair of consecutive statements sharing a file"""
     if impl_line.startswith('RAW'): return False
@@ -99,7 +124,8 @@ def monitor(case, impl_line):
 
 def run(tier):
     ck = Check(PID, tier)
-    broken = standard_proof_phase(ck, 'Properties_C15', need_srcfacts=False)
+    broken = standard_proof_phase(ck, 'Properties_C15')
+    read_variant(ck)
     mexe, err = ck.build_modelrun()
     if not mexe:
         ck.violation('no-failing-input-found', 'model extraction/build failed: ' + err[-400:]); return ck.finish(trusted=TRUSTED)
@@ -119,11 +145,7 @@ def run(tier):
     findings = {f['id']: f for f in ck.known_for()}
 
     def known_match(case, impl_line, msg):
-        c = parse(case)
-        f = findings.get('C15-daily-dst')
-        if f and c['freq'] == 1 and not c['gmt'] and ('rotation point' in msg) and (dst_plus24_applies(c) or isdst_carry_applies(c)):
-            return '%s open: %s' % (f['id'], f['what'])
-        return None
+        return None                     # no open finding of C15 (D7 and C15-daily-dst are repaired)
 
     def shrink(case, mode):
         c = parse(case)
@@ -148,44 +170,23 @@ def run(tier):
         for k in (FREQS[c['freq']], SCHEMES[c['scheme']], 'GMT' if c['gmt'] else ZONES[c['zone']], 'size-rotation' if c['limit'] else 'time-only',
                   'maxb=%s' % ('inf' if c['maxb'] == UNLIMITED else c['maxb'])):
             hist[k] = hist.get(k, 0) + 1
+    shapes = {}
+    for cs, i in zip(cases, il):
+        sh = dst_shape(cs)
+        if sh:
+            shapes['daily_local_dst_' + sh] = shapes.get('daily_local_dst_' + sh, 0) + 1
+            if nontrivial(cs, i): shapes['daily_local_dst_' + sh + '_nontrivial'] = shapes.get('daily_local_dst_' + sh + '_nontrivial', 0) + 1
     return ck.finish(trusted=TRUSTED, samples=cases[:2] + cases[-2:],
                      rule='one construct then write_log with non-decreasing injected timestamps (case line: see harness/rot.cpp); timestamps at g-1/g/g+1 ns of schedule points, gaps of 0.5/1/7.3 periods, DST days for daily/hourly in local zones, size rotation in the same period; non-trivial = at least two sink files hold statements and two statements share a file; distinct by case text',
                      evaluations=len(cases), distinct_nontrivial=nt, traces=len(cases) - len(dis) - len(mon),
-                     extra_cov={'disagreements': len(dis), 'monitor_failures': len(mon), 'corpus_cases': len(cor), 'generator_histogram': hist})
-
-
-def dst_plus24_applies(c):
-    """the defect's mechanism applies to this input: some start / record instant t has today's HH:MM
-    (local) at or before t, and the zone offset at that HH:MM differs from the offset 24 h later"""
-    tz = zone_of(c)
-    for o in c['ops']:
-        t = (o[3] if o[0] == 'R' else o[2]) // NS
-        d = datetime.datetime.fromtimestamp(t, tz)
-        for fold in (0, 1):
-            loc = datetime.datetime(d.year, d.month, d.day, c['hh'], c['mm'], 0, tzinfo=tz, fold=fold)
-            rt = int(loc.timestamp())
-            if rt <= t and datetime.datetime.fromtimestamp(rt, tz).utcoffset() != datetime.datetime.fromtimestamp(rt + 86400, tz).utcoffset():
-                return True
-    return False
-
-
-def isdst_carry_applies(c):
-    """some start / record instant t has today's HH:MM (local) still ahead, across a change of the zone offset"""
-    tz = zone_of(c)
-    for o in c['ops']:
-        t = (o[3] if o[0] == 'R' else o[2]) // NS
-        d = datetime.datetime.fromtimestamp(t, tz)
-        for fold in (0, 1):
-            loc = datetime.datetime(d.year, d.month, d.day, c['hh'], c['mm'], 0, tzinfo=tz, fold=fold)
-            rt = int(loc.timestamp())
-            if rt > t - 7200 and datetime.datetime.fromtimestamp(rt, tz).utcoffset() != d.utcoffset():
-                return True
-    return False
+                     extra_cov={'disagreements': len(dis), 'monitor_failures': len(mon), 'corpus_cases': len(cor), 'generator_histogram': hist,
+                                'daily_schedules_across_a_dst_change': shapes})
 
 
 def replay(path):
     d = json.load(open(path))
     ck = Check(PID, 'quick')
+    ck.srcfacts(); read_variant()
     mexe, _ = ck.build_modelrun(); iexe, _ = ck.build_harness('rot', ['rot.cpp'])
     c = d.get('case')
     if not c:
@@ -193,6 +194,7 @@ def replay(path):
     ml, il, _ = run_both(ck, mexe, iexe, [c])
     cc = parse(c)
     print('case :', c)
+    print('model variant (T-src): c_cntacct=%(cntacct)d c_plus24=%(plus24)d' % VARIANT)
     print('config: freq=%s interval=%d daily=%02d:%02d zone=%s scheme=%s limit=%d max_backup=%s overwrite=%d' % (
         FREQS[cc['freq']], cc['interval'], cc['hh'], cc['mm'], 'GMT' if cc['gmt'] else ZONES[cc['zone']], SCHEMES[cc['scheme']], cc['limit'], cc['maxb'], cc['over']))
     tz = zone_of(cc)
